@@ -1,4 +1,5 @@
 import Gleece.Driver.IR
+import Gleece.Driver.ConvCheck
 import Gleece.Model.Doc
 open Lean
 namespace Gleece.Driver
@@ -45,6 +46,7 @@ def checkC08 (d : IRDoc) (impl : Json) : PropOut := Id.run do
   let mut fails : List String := []
   let mut views : List (String × Json) := []
   let mut emitted := false
+  let ct := convTie d ((specView impl "spec30").doc) ((specView impl "spec31").doc)
   for (k, is30) in [("spec30", true), ("spec31", false)] do
     let sv := specView impl k
     match sv.err with
@@ -56,9 +58,14 @@ def checkC08 (d : IRDoc) (impl : Json) : PropOut := Id.run do
       views := views ++ [(k, Json.arr (bad.map Json.str).toArray)]
       for b in bad do
         -- C08-F1: 3.0 lists the members of a non-string enum COMPONENT as strings (pinned by the e2e asset)
-        let fid := if b = "enum-values-typed" && is30 &&
-            (dd.enums.filter fun e => !e.memberKinds.all (· = kindOfType e.type)).all (fun e => e.memberKinds.all (· = "string") && (e.name.splitOn "/properties/").length = 1 && e.name.startsWith "/components/schemas/")
-          then "C08-F1:" else ""
+        let offending := dd.enums.filter fun e => !e.memberKinds.all (· = kindOfType e.type)
+        let atComponentTop (e : DEnum) : Bool := (e.name.splitOn "/properties/").length = 1 && e.name.startsWith "/components/schemas/"
+        let fid := if b = "enum-values-typed" && is30 && offending.all (fun e => e.memberKinds.all (· = "string") && atComponentTop e)
+          then "C08-F1:"
+          -- C08-F3: members of an `enum=` / `oneof=` rule that are not values of the schema's type are written all
+          -- the same - on a USAGE site (parameter, field), and only where the converter model predicts it
+          else if b = "enum-values-typed" && (if is30 then ct.mistyped30 else ct.mistyped31) && offending.all (fun e => !atComponentTop e || is30 && e.memberKinds.all (· = "string"))
+          then "C08-F3:" else ""
         fails := fails ++ [fid ++ k ++ ":" ++ b]
   let expected := Json.mkObj (views.map fun (k, v) => (k, match v with | .arr _ => Json.arr #[] | o => o))
   return { model := expected, implView := Json.mkObj views, implFails := fails, nontrivial := emitted,
